@@ -73,6 +73,14 @@ Theorem C20_lookup_right_of_valid : forall idx man a d,
          /\ satisfies (dreq d) w = true.
 Proof. exact lookup_fix_right. Qed.
 
+(* ... and whatever the order or duplication of the stored version list. *)
+Theorem C20_lookup_right_any_order : forall idx man a d vs',
+  valid_solution idx man a = true -> edge idx man a d ->
+  (forall x, In x vs' <-> In x (vers_of a (dpkg d))) ->
+  exists w, find (matches_fix (dreq d)) vs' = Some w
+         /\ alookup (dep_key d) a = Some w /\ satisfies (dreq d) w = true.
+Proof. exact lookup_fix_any_order. Qed.
+
 (* Unchanged matcher: the lookup returns the assigned version exactly outside the known class
    (minor gap, or an earlier prerelease of the same package passing the matcher). *)
 Theorem C20_lookup_cur_iff_not_known : forall idx man a d w,
@@ -128,6 +136,14 @@ Theorem C20_lock_no_crash : forall idx man a fuel,
   valid_solution idx man a = true ->
   ~ crashes (lock_new fuel matches_fix (Res idx (index_packages a)) man).
 Proof. exact lock_no_crash_fix. Qed.
+
+(* ... and it terminates (cyclic indices included) with a lock file, as soon as the fuel of the
+   model exceeds the number of resolved packages: the `insert(..).is_none()` guard works. *)
+Theorem C20_lock_new_ok : forall idx man a fuel,
+  valid_solution idx man a = true ->
+  (List.length (all_packages (Res idx (index_packages a))) < fuel)%nat ->
+  exists l, lock_new fuel matches_fix (Res idx (index_packages a)) man = Ok l.
+Proof. exact lock_new_ok_fix. Qed.
 
 Theorem C20_lock_no_crash_except_known : forall idx man a fuel,
   valid_solution idx man a = true ->
